@@ -33,7 +33,7 @@ func init() {
 		Shards: func(tier string) int { return len(mach.Strict()) * subShards },
 		Run:    run,
 		Replay: replay,
-		Rule: "states = product states of the C01 exploration (implementation key x RFC 8259 PDA); for each state's witness: whitespace/newline insertions at inter-token positions x offending bytes (ref dies) and EOF (ref not accepting) x tails x chunkings {[]byte, one chunk, byte-wise, every 2-split, split after each newline}; " +
+		Rule: "states = product states of the C01 exploration (implementation key x RFC 8259 PDA); for each state's witness: whitespace/newline insertions at inter-token positions x offending bytes (ref dies) and EOF (ref not accepting) x tails x chunkings {[]byte, one chunk, byte-wise, every 2-split, split after each newline} x reader answers {default, io.EOF with the last chunk, one empty read at every position (byte-wise: before io.EOF; quick tier: 2-splits next to the offending byte only)} and, for []byte, x {as given, likeliest continuation stored in the spare capacity, no spare capacity}; " +
 			"distinct_nontrivial = distinct inputs whose offending byte lies beyond the first line (each is run under every chunking)",
 		Assumptions: []string{"BOM-less inputs; columns count bytes; lines end at \\n", "jsonref decides which byte is the first offending one",
 			"nesting bounded as in C01; whitespace placement bounded to <= 1 (quick) / 2 (thorough) insertions"},
@@ -58,6 +58,11 @@ type caseT struct {
 	At      int      `json:"offending_offset"`
 	EOF     bool     `json:"eof"`
 	GoTest  string   `json:"go_test,omitempty"`
+	// the reader's answers (io.EOF with the last chunk, one empty read) or the
+	// content of the input slice's spare capacity ("-" = none at all)
+	EOFWithLast bool   `json:"eof_with_last,omitempty"`
+	ZeroAt      int    `json:"zero_read_before_chunk,omitempty"`
+	Spare       string `json:"spare_capacity,omitempty"`
 }
 
 func interToken(m jsonref.Mode) bool {
@@ -247,9 +252,13 @@ func judge(c *core.Ctx, m *mach.M, mode string, in []byte, k int, eof bool) {
 	if eof {
 		what = "EOF"
 	}
+	var cur *caseT // set while a variant run is judged
 	check := func(entry, class string, chunks [][]byte, o *mach.Out) {
 		c.Eval()
 		cs := caseT{Machine: m.Name, Entry: entry, Chunks: chunks, Input: fmt.Sprintf("%q", in), At: k, EOF: eof}
+		if cur != nil {
+			cs.EOFWithLast, cs.ZeroAt, cs.Spare = cur.EOFWithLast, cur.ZeroAt, cur.Spare
+		}
 		if o.Panic != nil {
 			return // C06's business
 		}
@@ -290,18 +299,73 @@ func judge(c *core.Ctx, m *mach.M, mode string, in []byte, k int, eof bool) {
 			sig = core.Sig(sig, "mode="+mode)
 		}
 		cs.GoTest = mach.GoTest(m.Name, entry, chunks, false)
+		if cur != nil {
+			cs.GoTest = cur.GoTest
+		}
 		c.Fail(sig, cs, len(in)*10+len(chunks), fmt.Sprintf("%d:%d", el, ec), fmt.Sprintf("%d:%d (%v)", l, col, o.Err))
+	}
+	// variant judges a run that differs from base only in what the statement says
+	// must not matter (the reader's answers, the bytes behind the input slice)
+	variant := func(base *mach.Out, entry, class string, chunks [][]byte, o *mach.Out, cf mach.Config, spare []byte, exact bool) {
+		c.Add("answer_and_capacity_variants", 1)
+		if o.Panic == nil && o.Err == nil && base.Err != nil {
+			c.Eval()
+			cs := caseT{Machine: m.Name, Entry: entry, Chunks: chunks, Input: fmt.Sprintf("%q", in), At: k, EOF: eof, EOFWithLast: cf.EOFWithLast, ZeroAt: cf.ZeroAt, Spare: spareName(spare, exact)}
+			cs.GoTest = mach.GoTestEnv(m.Name, entry, chunks, false, cf, spare, exact)
+			c.Fail(core.Sig("fe="+m.Name+"."+entry, "chunking="+class, "at="+what, "no-error-where-the-default-run-reports-one"), cs, len(in)*10+len(chunks), fmt.Sprintf("%d:%d", el, ec), "accepted")
+			return
+		}
+		cur = &caseT{EOFWithLast: cf.EOFWithLast, ZeroAt: cf.ZeroAt, Spare: spareName(spare, exact), GoTest: mach.GoTestEnv(m.Name, entry, chunks, false, cf, spare, exact)}
+		check(entry, class, chunks, o)
+		cur = nil
 	}
 	if el > 1 {
 		c.Nontrivial() // one per distinct input whose offending byte lies beyond the first line
 	}
-	check("whole", "whole", [][]byte{in}, m.Whole(in, mach.Config{}))
+	w := m.Whole(in, mach.Config{})
+	check("whole", "whole", [][]byte{in}, w)
+	// the same slice with the likeliest continuation stored behind it, and with no spare capacity
+	comp, _ := bytemc.Complete(jsonref.Run(in))
+	for i, spare := range [][]byte{mach.SpareFor(comp), nil} {
+		variant(w, "whole", []string{"whole+continuation-in-spare-capacity", "whole+no-spare-capacity"}[i], [][]byte{in}, m.WholeSpare(in, spare, mach.Config{}), mach.Config{}, spare, i == 1)
+	}
 	for _, ck := range chunkings(in, k) {
-		check("reader", ck.class, ck.chunks, m.Feed(ck.chunks, mach.Config{}, false, false))
+		o := m.Feed(ck.chunks, mach.Config{}, false, false)
+		check("reader", ck.class, ck.chunks, o)
+		// the reader's other lawful answers: io.EOF with the last chunk, one empty read
+		n := len(ck.chunks)
+		if c.Quick() && n == 2 {
+			// quick: only the 2-splits that fall next to the offending byte
+			if d := len(ck.chunks[0]) - k; d < -1 || d > 1 {
+				continue
+			}
+		}
+		envs := []mach.Config{{EOFWithLast: true}}
+		if n <= 2 {
+			for z := 1; z <= n+1; z++ {
+				envs = append(envs, mach.Config{ZeroAt: z})
+			}
+		} else {
+			envs = append(envs, mach.Config{ZeroAt: n + 1})
+		}
+		for _, cf := range envs {
+			name := "+eof-with-last-chunk"
+			if cf.ZeroAt > 0 {
+				name = "+empty-read"
+			}
+			variant(o, "reader", ck.class+name, ck.chunks, m.Feed(ck.chunks, cf, false, false), cf, nil, false)
+		}
 	}
 	if el > 1 && len(in)%5 == 0 {
 		c.Sample(map[string]any{"machine": m.Name, "input": fmt.Sprintf("%q", in), "offending_offset": k, "expected": fmt.Sprintf("%d:%d", el, ec)})
 	}
+}
+
+func spareName(spare []byte, exact bool) string {
+	if exact {
+		return "-"
+	}
+	return string(spare)
 }
 
 func replay(c *core.Ctx, raw json.RawMessage) {
@@ -320,13 +384,22 @@ func replay(c *core.Ctx, raw json.RawMessage) {
 		in = append(in, ch...)
 	}
 	var o *mach.Out
-	if cs.Entry == "whole" {
-		o = m.Whole(in, mach.Config{})
-	} else {
-		o = m.Feed(cs.Chunks, mach.Config{}, false, false)
+	cf := mach.Config{EOFWithLast: cs.EOFWithLast, ZeroAt: cs.ZeroAt}
+	switch {
+	case cs.Entry == "whole" && cs.Spare == "-":
+		o = m.WholeSpare(in, nil, cf)
+	case cs.Entry == "whole" && cs.Spare != "":
+		o = m.WholeSpare(in, []byte(cs.Spare), cf)
+	case cs.Entry == "whole":
+		o = m.Whole(in, cf)
+	default:
+		o = m.Feed(cs.Chunks, cf, false, false)
 	}
 	el, ec := expected(in, cs.At)
 	if o.Err == nil {
+		if o.Panic == nil && (cs.EOFWithLast || cs.ZeroAt > 0 || cs.Spare != "") {
+			c.Fail("replay", cs, len(in), fmt.Sprintf("%d:%d", el, ec), "accepted")
+		}
 		return
 	}
 	if l, col, ok := position(o.Err); ok && (l != el || col != ec) {
